@@ -372,7 +372,35 @@ def cross_compare(res, direction, ref, got, case):
 
 def plan(tier, seed):
     n = 16 if tier == "quick" else 64
-    return [{"kind": "runs", "part": i, "parts": n, "seed": seed, "tier": tier, "idx": i} for i in range(n)]
+    specs = [{"kind": "runs", "part": i, "parts": n, "seed": seed, "tier": tier, "idx": i} for i in range(n)]
+    for i in range(1 if tier == "quick" else 4):
+        specs.append({"kind": "valgrind", "part": i, "parts": n, "seed": seed, "tier": tier, "idx": n + i})
+    return specs
+
+
+def run_valgrind(res, r, tier, workdir):
+    """Save/load (zip writer/reader stand-in, snapshot.rs, raw-pointer bus of step()) under valgrind memcheck."""
+    kc = key_codes()
+    jobs = []
+    for ri in range(2 if tier == "quick" else 6):
+        scen, n, placed = make_run(r, "quick")
+        pts = list(range(3, n, 7))
+        paths = {i: os.path.join(workdir, f"vg-{ri}-{i}.snap") for i in pts}
+        jobs.append((scen, script_original(n, placed, paths)))
+        for i in pts:
+            jobs.append((bare(scen), script_restored(i, n, placed, paths[i], 12)))
+    outs, rep = machine.run_rust(jobs, kc, obs_lcd=True, obs_full=True, valgrind=True)
+    if not rep.get("available"):
+        res.count("valgrind_not_available")
+        return
+    res.evaluations += 1
+    res.monitor("valgrind_memcheck", len(jobs))
+    if rep["errors"] or rep.get("rc") != 0 or outs is None:
+        res.violation({"clause": "memcheck_error_in_snapshot_or_step"}, {"jobs": len(jobs)}, rep["log"][-800:])
+        return
+    plain = machine.run_rust(jobs, kc, obs_lcd=True, obs_full=True)
+    if [o[0] for o in outs] != [o[0] for o in plain]:
+        res.violation({"clause": "result_differs_under_memcheck"}, {"jobs": len(jobs)}, "")
 
 
 def run_shard(spec) -> Result:
@@ -384,6 +412,9 @@ def run_shard(spec) -> Result:
                            f"{os.getpid()}-{spec['idx']}")
     os.makedirs(workdir, exist_ok=True)
     try:
+        if spec["kind"] == "valgrind":
+            run_valgrind(res, r, tier, workdir)
+            return res
         runs = [make_run(r, tier) for _ in range(total)]
         for lo in range(0, len(runs), 4):
             run_batch(res, runs[lo:lo + 4], tier, workdir, every_cross=3)
